@@ -126,3 +126,41 @@ func Harness_C19_sequential() {
 	verif_Assert("C19.seq.new_owner", err == nil && got.ClientID == 1002 && got.ID == b.ID)
 	verif_Cover("C19.seq.done")
 }
+
+// A mapping created with a lifetime (create, then UpdateMapping with ExpiresAt, as the command
+// adapter does) routes while it lives; after its expiry the stored record is expired and not
+// active, the cleanup removes it and somebody else can claim the name.
+func Harness_C19_expiry() {
+	ctx := context.Background()
+	t0 := int64(1) << 60
+	verif_ClockSet(t0)
+	now := time.Now().Unix() // the replay's clock is relative: take the absolute second from it
+	r := newC19Repo(ctx)
+	a, err := r.CreateMapping(ctx, 1001, "app", "tunnox.net", "127.0.0.1", 8080)
+	verif_Assert("C19.exp.create", err == nil)
+	ttl := int64(verif_Byte()) + 1
+	a.ExpiresAt = now + ttl
+	a.Description = "d"
+	verif_Assert("C19.exp.update", r.UpdateMapping(ctx, a) == nil)
+	// some other update of the updatable fields happens in between
+	if verif_Bool() {
+		cur, gerr := r.GetMapping(ctx, a.ID)
+		verif_Assert("C19.exp.get", gerr == nil)
+		cur.TargetPort = 9090
+		verif_Assert("C19.exp.update2", r.UpdateMapping(ctx, cur) == nil)
+	}
+	dt := int64(verif_Byte())
+	verif_ClockSet(t0 + dt*int64(time.Second))
+	got, lerr := r.LookupByDomain(ctx, "app.tunnox.net")
+	if dt <= ttl {
+		verif_Assert("C19.exp.routes_while_alive", lerr == nil && got.ClientID == 1001 && got.IsActive())
+	} else {
+		verif_Assert("C19.exp.dead_after_expiry", lerr != nil || (got.IsExpired() && !got.IsActive()))
+		n, cerr := r.CleanupExpiredMappings(ctx)
+		verif_Assert("C19.exp.cleanup_removes", cerr == nil && n == 1)
+		_, err = r.CreateMapping(ctx, 1002, "app", "tunnox.net", "127.0.0.1", 9090)
+		verif_Assert("C19.exp.name_free_again", err == nil)
+		verif_Cover("C19.exp.expired")
+	}
+	verif_Cover("C19.exp.done")
+}
